@@ -129,6 +129,7 @@ func runSeq(sc seqCase, replay bool) (*wk.Failure, *simrt.Result, []string, int)
 	res := simrt.Run(simrt.Config{Budget: budget, Chooser: ch}, func() {
 		known := map[int]bool{}
 		for i, c := range sc.Calls {
+			simrt.ExtendBudget(int64(StepsPerByte) * int64(c.Len()+64))
 			out := pparse.Exec(c)
 			switch {
 			case out.Panic != "":
